@@ -8,7 +8,9 @@
 //! equals the sum of the outstanding charges and never exceeds the limit, a failed request
 //! changes nothing; after clear the ledger is empty and the counter 0; after a collection the
 //! live objects are exactly the reachable (or guarded) ones; OutOfMemory only if reachable bytes
-//! + request > limit; the outcome of a bounded-live-data loop does not depend on n.
+//! + request > limit: the observation of a program does not depend on the collection schedule,
+//! a refused host request stays refused after a collection, and a loop with bounded live data (a
+//! retained set of any size that fits, plus O(1) per iteration) never fails, whatever n.
 
 use crate::choice::{fnv64, Choices};
 use crate::engine::{CaseOut, Failure, Property, Tier, Verdict};
@@ -160,7 +162,8 @@ fn reachable(vm: &Vm<Host>, extra_roots: &[Value]) -> (BTreeSet<usize>, usize) {
 
 enum Case {
     Program(Program, usize),
-    GarbageLoop { n: i64, limit: usize, shape: usize },
+    /// `retained` strings of 200 bytes stay reachable while the loop produces garbage
+    GarbageLoop { n: i64, limit: usize, shape: usize, retained: i64 },
     History(Vec<HOp>, usize),
 }
 
@@ -176,7 +179,7 @@ enum HOp {
     SetLimit(usize),
 }
 
-fn garbage_program(n: i64, shape: usize) -> Program {
+fn garbage_program(n: i64, shape: usize, retained: i64) -> Program {
     // live data is O(1): every iteration replaces what the previous one built
     let body = match shape {
         0 => vec![Stmt::SetVar("t".into(), Expr::CreateTable), Stmt::SetProp(Expr::CallNative("mk_str".into(), vec![int(30)]), var("t"), int(1)), Stmt::SetGlobal("keep".into(), var("t"))],
@@ -188,11 +191,22 @@ fn garbage_program(n: i64, shape: usize) -> Program {
         ],
         _ => vec![Stmt::SetGlobal("keep".into(), Expr::DynCall(Box::new(Expr::Closure(std::rc::Rc::new(ClosureDef { id: 0, params: vec![], body: vec![Stmt::Return(Expr::Str("fresh".into()))] }))), vec![]))],
     };
-    let main = vec![Stmt::Repeat(int(n), Some("i".into()), Box::new(Stmt::Composite(body))), log_stmt(int(n))];
+    // optionally a set of strings that stays reachable through a global for the whole run
+    let mut main = vec![];
+    if retained > 0 {
+        main.push(Stmt::SetVar("held".into(), Expr::CreateTable));
+        main.push(Stmt::Repeat(int(retained), None, Box::new(Stmt::Append(Expr::CallNative("mk_str".into(), vec![int(200)]), var("held")))));
+        main.push(Stmt::SetGlobal("held_g".into(), var("held")));
+        main.push(log_stmt(int(-retained)));
+    }
+    if n > 0 {
+        main.push(Stmt::Repeat(int(n), Some("i".into()), Box::new(Stmt::Composite(body))));
+    }
+    main.push(log_stmt(int(n)));
     Program {
         funcs: vec![FuncDef { id: 0, name: "main".into(), module: vec![], params: vec![], body: main }],
         root: ModuleDef { name: String::new(), functions: vec![0], submodules: vec![], imports: vec![] },
-        globals: vec!["keep".into(), "sink_".into()],
+        globals: vec!["keep".into(), "held_g".into(), "sink_".into()],
     }
 }
 
@@ -207,7 +221,11 @@ fn decode(bytes: &[u8]) -> Case {
         1 => {
             let n = 20 + c.draw(300) as i64;
             let limit = *c.pick(&[16usize << 10, 64 << 10, 400 << 10]);
-            Case::GarbageLoop { n, limit, shape: c.draw(4) }
+            let shape = c.draw(4);
+            // how much of the limit stays reachable: nothing, or up to about the whole limit
+            // (a 200-byte string in a table costs about 330 bytes)
+            let retained = if c.chance(150) { (c.draw(105) * (limit / 330) / 100) as i64 } else { 0 };
+            Case::GarbageLoop { n, limit, shape, retained }
         }
         _ => {
             let limit = *c.pick(&[1usize << 10, 4 << 10, 64 << 10, 1 << 20]);
@@ -243,11 +261,15 @@ fn fail(clause: &str, d: String) -> Failure {
 }
 
 fn start_vm(limit: usize) -> Vm<'static, Host> {
+    start_vm_with(limit, GcSchedule::Natural)
+}
+
+fn start_vm_with(limit: usize, schedule: GcSchedule) -> Vm<'static, Host> {
     let cfg = RunCfg { max_instr: 3_000_000, mem_limit: limit, ..RunCfg::default() };
     let vm = new_vm(&cfg);
     {
         let h = verif::alloc_hooks(&vm.runtime_data);
-        h.schedule = GcSchedule::Natural;
+        h.schedule = schedule;
         h.record_events = true;
         h.events.clear();
         h.alloc_index = 0;
@@ -257,7 +279,7 @@ fn start_vm(limit: usize) -> Vm<'static, Host> {
 }
 
 /// checks that hold after a run / at the end of a history: ledger, collection exactness, clear
-fn end_checks(vm: &mut Vm<Host>, ledger: &mut Ledger, limit: usize, cx: &mut Ctx) -> Result<(), Failure> {
+fn end_checks(vm: &mut Vm<Host>, ledger: &mut Ledger, limit: usize, cx: &mut Ctx) -> Result<usize, Failure> {
     let drain = |vm: &Vm<Host>| -> Vec<AllocEvent> { std::mem::take(&mut verif::alloc_hooks(&vm.runtime_data).events) };
     let ev = drain(vm);
     ledger.feed(&ev, limit).map_err(|(c, d)| fail(&c, d))?;
@@ -278,6 +300,7 @@ fn end_checks(vm: &mut Vm<Host>, ledger: &mut Ledger, limit: usize, cx: &mut Ctx
         let name = unsafe { (*(*extra as *const CaoLangObject)).type_name() };
         return Err(fail("unreachable_objects_reclaimed", format!("a {} object is unreachable but still alive after a collection ({} live, {} reachable)", name, live.len(), reach.len())));
     }
+    let live_bytes = ledger.sum;
     // clear releases everything
     vm.clear();
     let ev = drain(vm);
@@ -290,12 +313,17 @@ fn end_checks(vm: &mut Vm<Host>, ledger: &mut Ledger, limit: usize, cx: &mut Ctx
         ));
     }
     cx.execs += 1;
-    Ok(())
+    Ok(live_bytes)
 }
 
 fn run_program_case(prog: &Program, limit: usize, cx: &mut Ctx) -> Result<(bool, Obs), Failure> {
+    run_program_sched(prog, limit, GcSchedule::Natural, cx).map(|(nt, o, _)| (nt, o))
+}
+
+/// (non-trivial, observation, bytes alive after the final collection)
+fn run_program_sched(prog: &Program, limit: usize, schedule: GcSchedule, cx: &mut Ctx) -> Result<(bool, Obs, usize), Failure> {
     let compiled = compile_program(prog).map_err(|e| fail("compiles", format!("{}", e)))?;
-    let mut vm = start_vm(limit);
+    let mut vm = start_vm_with(limit, schedule);
     let obs = run_on(&mut vm, &compiled, &prog.globals);
     let collections = verif::alloc_hooks(&vm.runtime_data).collections;
     let mut ledger = Ledger::default();
@@ -318,8 +346,23 @@ fn run_program_case(prog: &Program, limit: usize, cx: &mut Ctx) -> Result<(bool,
             ));
         }
     }
-    end_checks(&mut vm, &mut ledger, limit, cx)?;
-    Ok((collections >= 2 || oom || ledger.fails > 0, obs))
+    let live = end_checks(&mut vm, &mut ledger, limit, cx)?;
+    Ok((collections >= 2 || oom || ledger.fails > 0, obs, live))
+}
+
+fn same_obs(a: &Obs, b: &Obs) -> Option<String> {
+    if a.outcome != b.outcome {
+        return Some(format!("outcome {:?} vs {:?}", a.outcome, b.outcome));
+    }
+    if let Some(d) = log_eq(&a.log, &b.log) {
+        return Some(format!("host log differs: {}", d));
+    }
+    for (n, v) in a.globals.iter() {
+        if !b.globals.get(n).map(|w| w.obs_eq(v)).unwrap_or(false) {
+            return Some(format!("global {} differs: {:?} vs {:?}", n, v, b.globals.get(n)));
+        }
+    }
+    None
 }
 
 fn run_history(ops: &[HOp], limit: usize, cx: &mut Ctx) -> Result<bool, Failure> {
@@ -342,6 +385,13 @@ fn run_history(ops: &[HOp], limit: usize, cx: &mut Ctx) -> Result<bool, Failure>
                 Err(_) => {
                     interesting = true;
                     cx.labels.push("alloc_failed".into());
+                    // a refused request stays refused after a collection: the allocator itself
+                    // reclaims the garbage before it refuses
+                    unguarded.clear();
+                    vm.runtime_data.gc();
+                    if vm.init_string(&"s".repeat(*len)).is_ok() {
+                        return Err(fail("refused_only_when_live_data_does_not_fit", format!("step {} {:?}: refused, but the same request is granted right after a collection (limit {})", step, op, limit)));
+                    }
                 }
             },
             HOp::Table(n, keep) => match vm.init_table() {
@@ -350,6 +400,11 @@ fn run_history(ops: &[HOp], limit: usize, cx: &mut Ctx) -> Result<bool, Failure>
                         if g.as_table_mut().unwrap().insert(Value::Integer(i as i64), Value::Integer(1)).is_err() {
                             interesting = true;
                             cx.labels.push("alloc_failed".into());
+                            unguarded.clear();
+                            vm.runtime_data.gc();
+                            if g.as_table_mut().unwrap().insert(Value::Integer(i as i64), Value::Integer(1)).is_ok() {
+                                return Err(fail("refused_only_when_live_data_does_not_fit", format!("step {} {:?}: insert #{} refused, but the same insert is granted right after a collection (limit {})", step, op, i, limit)));
+                            }
                             break;
                         }
                     }
@@ -362,6 +417,11 @@ fn run_history(ops: &[HOp], limit: usize, cx: &mut Ctx) -> Result<bool, Failure>
                 Err(_) => {
                     interesting = true;
                     cx.labels.push("alloc_failed".into());
+                    unguarded.clear();
+                    vm.runtime_data.gc();
+                    if vm.init_table().is_ok() {
+                        return Err(fail("refused_only_when_live_data_does_not_fit", format!("step {} {:?}: refused, but the same request is granted right after a collection (limit {})", step, op, limit)));
+                    }
                 }
             },
             HOp::DropGuard(i) => {
@@ -431,7 +491,7 @@ impl Property for C05 {
         "C05"
     }
     fn rule(&self) -> &'static str {
-        "case = (A) generated table-heavy program under a limit from {4K,8K,32K,128K,1M}; (B) a loop of n in 20..320 iterations of pure garbage (4 shapes: table+string, string, 12-entry table, closure+string) with O(1) live data under limits {16K,64K,400K}, run for n and for 10n; (C) a host-API history of <=60 ops (init_string of 0..5000 bytes, init_table with 0..29 entries, keep or drop the guard, push a guarded object, pop, gc, clear, set_memory_limit) under limits {1K,4K,64K,1M}. Oracle: shadow ledger over the allocator's event hook after every run/op (counter == sum of outstanding charges, <= limit, a refused request changes nothing), after a final collection live objects == objects reachable from stack/globals/open upvalues/guards (computed by an independent walker), after clear counter == 0 and nothing outstanding, OutOfMemory only if reachable bytes + request > limit/2, family B: neither n nor 10n iterations may fail. non-trivial = >=2 collections, or a refused allocation, or a clear followed by more work; distinct by hash of the decoded case"
+        "case = (A) generated table-heavy program under a limit from {4K,8K,32K,128K,1M}; (B) a loop of n in 20..320 iterations of pure garbage (4 shapes: table+string, string, 12-entry table, closure+string) after a retaining prefix, under limits {16K,64K,400K}; (C) a host-API history of <=60 ops (init_string of 0..5000 bytes, init_table with 0..29 entries, keep or drop the guard, push a guarded object, pop, gc, clear, set_memory_limit) under limits {1K,4K,64K,1M}. Oracle: shadow ledger over the allocator's event hook after every run/op (counter == sum of outstanding charges, <= limit, a refused request changes nothing), after a final collection live objects == objects reachable from stack/globals/open upvalues/guards (computed by an independent walker), after clear counter == 0 and nothing outstanding, OutOfMemory only if reachable bytes + request > limit/2; family A: the observation (outcome incl. OutOfMemory, host log, globals) is identical under the natural trigger, collection at every allocation, and no collection other than the one before refusing; family B: with r retained 200-byte strings (0..105% of the limit; measured by running the retaining prefix alone) neither n nor 10n iterations (natural trigger) nor 3n iterations (no collection until the limit) may fail whenever retained bytes + 6 KiB <= limit; family C: a refused init_string / init_table / insert is still refused when retried right after an explicit collection. non-trivial = >=2 collections, or a refused allocation, or a clear followed by more work; distinct by hash of the decoded case"
     }
     fn assumptions(&self) -> Vec<String> {
         vec![
@@ -455,7 +515,7 @@ impl Property for C05 {
     fn describe(&self, bytes: &[u8]) -> J {
         match decode(bytes) {
             Case::Program(p, l) => json!({"family": "program", "limit": l, "program": program_json(&p)}),
-            Case::GarbageLoop { n, limit, shape } => json!({"family": "garbage_loop", "n": n, "limit": limit, "shape": shape, "program": program_json(&garbage_program(n, shape))}),
+            Case::GarbageLoop { n, limit, shape, retained } => json!({"family": "garbage_loop", "n": n, "limit": limit, "shape": shape, "retained_strings": retained, "program": program_json(&garbage_program(n, shape, retained))}),
             Case::History(ops, l) => json!({"family": "history", "limit": l, "ops": ops.iter().map(|o| format!("{:?}", o)).collect::<Vec<_>>()}),
         }
     }
@@ -475,28 +535,54 @@ impl Property for C05 {
                 if let Err(crate::refsem::ErrKind::Undefined(w)) = &r.outcome {
                     return CaseOut { verdict: Verdict::Discard(w), nontrivial: false, labels: cx.labels, fingerprint: fp, execs: 0 };
                 }
-                run_program_case(p, *limit, &mut cx).map(|x| x.0)
-            }
-            Case::GarbageLoop { n, limit, shape } => {
-                fp = fnv64(format!("{} {} {}", n, limit, shape).as_bytes());
-                cx.labels.push(format!("garbage_loop_shape{}", shape));
-                let small = run_program_case(&garbage_program(*n, *shape), *limit, &mut cx);
-                match small {
-                    Err(f) => Err(f),
-                    Ok((_, o1)) => match run_program_case(&garbage_program(*n * 10, *shape), *limit, &mut cx) {
-                        Err(f) => Err(f),
-                        Ok((nt, o2)) => {
-                            if o1.outcome != Ok(()) || o2.outcome != Ok(()) {
-                                Err(fail(
-                                    "bounded_live_data_runs_indefinitely",
-                                    format!("shape {} under limit {}: {} iterations -> {:?}, {} iterations -> {:?}", shape, limit, n, o1.outcome, n * 10, o2.outcome),
-                                ))
-                            } else {
-                                Ok(nt)
-                            }
+                // the collector is transparent: when collections happen cannot change what the
+                // program does, and in particular not whether a request is refused (a request is
+                // refused only if what is reachable plus the request does not fit)
+                (|| {
+                    let (nt, natural, _) = run_program_sched(p, *limit, GcSchedule::Natural, &mut cx)?;
+                    for (name, sched) in [("never", GcSchedule::Never), ("every", GcSchedule::Every)] {
+                        let (_, other, _) = run_program_sched(p, *limit, sched, &mut cx)?;
+                        if let Some(d) = same_obs(&natural, &other) {
+                            return Err(fail(
+                                "outcome_independent_of_collection_schedule",
+                                format!("limit {}: the run with the natural trigger and the run with schedule '{}' differ: {}", limit, name, d),
+                            ));
                         }
-                    },
-                }
+                    }
+                    if matches!(&natural.outcome, Err(k) if k.trim_end_matches(')').ends_with("OutOfMemory")) {
+                        cx.labels.push("oom_under_all_schedules".into());
+                    }
+                    Ok(nt)
+                })()
+            }
+            Case::GarbageLoop { n, limit, shape, retained } => {
+                fp = fnv64(format!("{} {} {} {}", n, limit, shape, retained).as_bytes());
+                cx.labels.push(format!("garbage_loop_shape{}", shape));
+                (|| {
+                    // what stays reachable: measured by running the retaining prefix alone
+                    let mut must_fit = true;
+                    if *retained > 0 {
+                        let (_, o, live) = run_program_sched(&garbage_program(0, *shape, *retained), *limit, GcSchedule::Natural, &mut cx)?;
+                        // one iteration's own data and a table growing by doubling need some room
+                        must_fit = o.outcome == Ok(()) && live + 6 * 1024 <= *limit;
+                        let pct = live * 100 / *limit;
+                        cx.labels.push(format!("retained_decile_{}", pct / 10));
+                        cx.labels.push(if !must_fit { "retained_does_not_fit".to_string() } else if pct > 50 { "retained>50%".to_string() } else { "retained<=50%".to_string() });
+                    }
+                    let mut nt = false;
+                    for (iters, sched) in [(*n, GcSchedule::Natural), (*n * 10, GcSchedule::Natural), (*n * 3, GcSchedule::Never)] {
+                        let sname = format!("{:?}", sched);
+                        let (x, o, _) = run_program_sched(&garbage_program(iters, *shape, *retained), *limit, sched, &mut cx)?;
+                        nt |= x;
+                        if must_fit && o.outcome != Ok(()) {
+                            return Err(fail(
+                                "bounded_live_data_runs_indefinitely",
+                                format!("shape {} under limit {} with {} retained strings, {} iterations, schedule {}: {:?}", shape, limit, retained, iters, sname, o.outcome),
+                            ));
+                        }
+                    }
+                    Ok(nt)
+                })()
             }
             Case::History(ops, limit) => {
                 fp = fnv64(format!("{:?}{}", ops, limit).as_bytes());
